@@ -117,6 +117,28 @@ CreateFile(d, s, f) ==
   /\ nops' = nops + 1 /\ last' = <<"CreateFile", d, s, f>>
   /\ UNCHANGED folders
 
+(* new content for a file secret: the old blob is replaced *)
+UpdateFile(d, s) ==
+  /\ slots[d][s].f # "-" /\ slots[d][s].file
+  /\ sink' = [sink EXCEPT ![Store(d)] = @ \cup {Sealed(SecretTok(s, "file2"),
+                                                        FolderKey(slots[d][s].f, folders[d][slots[d][s].f].gen)),
+                                               Sealed(FileTok(s), IdKeys)}]
+  /\ pending' = [pending EXCEPT ![d] = @ \cup {Sealed(SecretTok(s, "file2"),
+                                                       FolderKey(slots[d][s].f, folders[d][slots[d][s].f].gen))}]
+  /\ nops' = nops + 1 /\ last' = <<"UpdateFile", d, s>>
+  /\ UNCHANGED <<folders, slots>>
+
+(* a file attached as a custom field of another secret *)
+AttachFile(d, s) ==
+  /\ slots[d][s].f # "-" /\ ~slots[d][s].file
+  /\ sink' = [sink EXCEPT ![Store(d)] = @ \cup {Sealed(SecretTok(s, "attached"),
+                                                        FolderKey(slots[d][s].f, folders[d][slots[d][s].f].gen)),
+                                               Sealed(FileTok(s), IdKeys)}]
+  /\ pending' = [pending EXCEPT ![d] = @ \cup {Sealed(SecretTok(s, "attached"),
+                                                       FolderKey(slots[d][s].f, folders[d][slots[d][s].f].gen))}]
+  /\ nops' = nops + 1 /\ last' = <<"AttachFile", d, s>>
+  /\ UNCHANGED <<folders, slots>>
+
 CreateFolder(d, f, e) ==
   /\ f \in Folders /\ \A x \in Devices : ~Has(x, f)
   /\ folders' = [folders EXCEPT ![d][f] = [name |-> "name_" \o f, desc |-> e, gen |-> 1]]
@@ -167,6 +189,8 @@ Next ==
      \/ \E d \in Devices, s \in Slots, k \in Kinds : UpdateSecret(d, s, k)
      \/ \E d \in Devices, s \in Slots, g \in AllFolders : MoveSecret(d, s, g)
      \/ \E d \in Devices, s \in Slots, f \in AllFolders : CreateFile(d, s, f)
+     \/ \E d \in Devices, s \in Slots : UpdateFile(d, s)
+     \/ \E d \in Devices, s \in Slots : AttachFile(d, s)
      \/ \E d \in Devices, f \in Folders, e \in Descs \cup {"-"} : CreateFolder(d, f, e)
      \/ \E d \in Devices, f \in AllFolders, n \in Names : RenameFolder(d, f, n)
      \/ \E d \in Devices, f \in AllFolders, e \in Descs : SetDescription(d, f, e)
